@@ -57,6 +57,9 @@ def cases(tier, seed):
     for J in (10, 11, 12, 40, 101, 150):
         for pattern in (0, 1):
             yield dict(kind='large', J=J, pattern=pattern)
+    # ONE synthetic event in a cell (mean rate 1/J), another cell never sampled: every J in 2..170 (1/J * J is not always 1.0 in floats)
+    for chunk in space.chunks(list(range(2, 171)), 12):
+        yield dict(kind='once', Js=chunk)
     # calibration test: every sub-sequence (length 1..4) of a fixed family of six evaluation results (one of them not-valid)
     yield dict(kind='calibration')
     if tier == 'thorough':
@@ -420,6 +423,18 @@ def _run_case(case):
                 evals += e
             states += 1
             nontriv += 1
+        for f in failures:
+            f['case'] = dict(case)
+    elif k == 'once':
+        for J in case['Js']:
+            # types: t = cell * NM + bin; cell 0 is hit once, cell 1 by all other catalogs, cell 2 never
+            forecast = [[0]] + [[1 * NM]] * (J - 1)
+            fc = mem_forecast(forecast, reg, origins, mags)
+            for obs_types in ([0, 2 * NM], [0, 0, 2 * NM + 1]):
+                e, cls = run_tests(fc, forecast, obs_types, reg, origins, mags, failures, hsh, {'spatial_test', 'pseudolikelihood_test'}, 'mem')
+                evals += e
+                states += 1
+                nontriv += 1
         for f in failures:
             f['case'] = dict(case)
     elif k == 'history':
